@@ -84,10 +84,11 @@ NoDec == [k |-> "unused", c |-> "-", md |-> NoMd]
 Dec(k, c, md) == [k |-> k, c |-> c, md |-> md]
 
 Ret(ok, kind, cause, c, md, env) ==
-  [ok |-> ok, kind |-> kind, cause |-> cause, c |-> c, md |-> md, env |-> env]
+  [ok |-> ok, kind |-> kind, cause |-> cause, c |-> c, md |-> md, env |-> env, ty |-> NoTy]
 RetRestored(c)        == Ret(TRUE,  "Restored", "-", c, NoMd, "none")
 RetEmpty(cause, c)    == Ret(TRUE,  "Empty", cause, c, NoMd, "none")
-RetData(md, env)      == Ret(TRUE,  "Data", "-", "-", md, env)
+\* LayerData as returned by handle_layer: metadata, env and the layer types as read back
+RetData(md, env, ty)  == [Ret(TRUE,  "Data", "-", "-", md, env) EXCEPT !.ty = ty]
 RetUnit               == Ret(TRUE,  "Unit", "-", "-", NoMd, "none")
 RetEnv(env)           == Ret(TRUE,  "Env", "-", "-", NoMd, env)
 RetErrBuildpack       == Ret(FALSE, "ErrBuildpack", "-", "-", NoMd, "none")
@@ -218,8 +219,11 @@ WriteFile(n, f) ==
 ResMd(T)   == IF T = "G" THEN {NoMd} \cup {Md("X", v) : v \in MdVals} ELSE MdOf(T)
 Results(T) == {[k |-> "Ok", md |-> m, shape |-> s] : m \in ResMd(T), s \in Shapes}
               \cup {[k |-> "Err", md |-> NoMd, shape |-> NoShape]}
-StratDecisions == {Dec(k, "-", NoMd) : k \in {"Keep", "Update", "Recreate", "Err"}}
-MigDecisions(T) == {Dec("Recreate", "-", NoMd), Dec("Err", "-", NoMd)}
+\* "Default": the buildpack's Layer does not override the method (trait_api/mod.rs): the default
+\* strategy and the default migration are Recreate, the default update keeps metadata and env
+\* and provides neither exec.d programs nor SBOMs
+StratDecisions == {Dec(k, "-", NoMd) : k \in {"Keep", "Update", "Recreate", "Err", "Default"}}
+MigDecisions(T) == {Dec("Recreate", "-", NoMd), Dec("Err", "-", NoMd), Dec("Default", "-", NoMd)}
                    \cup {Dec("Replace", "-", m) : m \in MdOf(T) \ {NoMd}}
 
 IsEmptyDir(l) == l.files = {} /\ l.env = "none" /\ l.execd = {}
@@ -235,7 +239,7 @@ TraitCreate(n, l0, ty, T, strat, mig, calls0, cresSet) ==
         ELSE Finish(n, [dir |-> TRUE, files |-> l.files \cup res.shape.files,
                         env |-> res.shape.env, execd |-> res.shape.execd,
                         sbom |-> res.shape.sbom, toml |-> TomlOk(ty, res.md)],
-                    FALSE, O(RetData(res.md, res.shape.env)))
+                    FALSE, O(RetData(res.md, res.shape.env, ty)))
 
 \* the layer was read and its metadata parses as T: ask the strategy callback
 TraitSome(n, l, ty, T, mig, calls0, stratSet, cresSet, uresSet) ==
@@ -244,18 +248,23 @@ TraitSome(n, l, ty, T, mig, calls0, stratSet, cresSet, uresSet) ==
         O(ures, ret, cs) == Obs("handle_layer", n, ty, T, NoDec, NoDec, strat, mig, NoRes,
                                 ures, NoArg, ret, cs)
     IN  CASE strat.k = "Err"      -> Finish(n, l, FALSE, O(NoRes, RetErrBuildpack, calls))
-          [] strat.k = "Recreate" -> TraitCreate(n, DeleteLayer(l), ty, T, strat, mig, calls, cresSet)
+          [] strat.k \in {"Recreate", "Default"} -> TraitCreate(n, DeleteLayer(l), ty, T, strat, mig, calls, cresSet)
           [] strat.k = "Keep"     -> Finish(n, ReplaceTypes(l, ty), FALSE,
-                                            O(NoRes, RetData(l.toml.md, l.env), calls))
+                                            O(NoRes, RetData(l.toml.md, l.env, ty), calls))
           [] strat.k = "Update"   ->
                \E res \in uresSet :
-                 LET cs == Append(calls, Call("update", l.toml.md, l.env, FALSE)) IN
+                 LET cs == Append(calls, Call("update", l.toml.md, l.env, FALSE))
+                     \* what the update amounts to (the default one re-uses what was read)
+                     ures == IF res.k = "Default"
+                             THEN [k |-> "Default", md |-> l.toml.md, shape |-> [NoShape EXCEPT !.env = l.env]]
+                             ELSE res
+                 IN
                  IF res.k = "Err" THEN Finish(n, l, FALSE, O(res, RetErrBuildpack, cs))
-                 ELSE Finish(n, [l EXCEPT !.files = @ \cup res.shape.files,
-                                          !.env = res.shape.env, !.execd = res.shape.execd,
-                                          !.sbom = res.shape.sbom,
-                                          !.toml = TomlOk(ty, res.md)],
-                             FALSE, O(res, RetData(res.md, res.shape.env), cs))
+                 ELSE Finish(n, [l EXCEPT !.files = @ \cup ures.shape.files,
+                                          !.env = ures.shape.env, !.execd = ures.shape.execd,
+                                          !.sbom = ures.shape.sbom,
+                                          !.toml = TomlOk(ty, ures.md)],
+                             FALSE, O(res, RetData(ures.md, ures.shape.env, ty), cs))
 
 \* the callback decisions are drawn from the given sets (the model checker passes all
 \* decisions, trace validation passes the ones that were observed)
@@ -274,12 +283,13 @@ HandleLayerD(n, ty, T, stratSet, migSet, cresSet, uresSet) ==
         ELSE \E mig \in migSet :
           LET calls == <<Call("migrate", r.l.toml.md, "none", FALSE)>> IN
           CASE mig.k = "Err"      -> Finish(n, r.l, FALSE, O(mig, RetErrBuildpack, calls))
-            [] mig.k = "Recreate" -> TraitCreate(n, DeleteLayer(r.l), ty, T, NoDec, mig, calls, cresSet)
+            [] mig.k \in {"Recreate", "Default"} -> TraitCreate(n, DeleteLayer(r.l), ty, T, NoDec, mig, calls, cresSet)
             [] mig.k = "Replace"  -> TraitSome(n, ReplaceMetadata(r.l, mig.md), ty, T, mig, calls,
                                                stratSet, cresSet, uresSet)
 
+DefaultRes == [k |-> "Default", md |-> NoMd, shape |-> NoShape]
 HandleLayer(n, b, la, c, T) ==
-  HandleLayerD(n, Ty(b, la, c), T, StratDecisions, MigDecisions(T), Results(T), Results(T))
+  HandleLayerD(n, Ty(b, la, c), T, StratDecisions, MigDecisions(T), Results(T), Results(T) \cup {DefaultRes})
 
 -----------------------------------------------------------------------------
 (* Environment: the platform between and around builds *)
@@ -467,7 +477,7 @@ Count(calls, cb) == Cardinality({i \in DOMAIN calls : calls[i].cb = cb})
 TraitCallbacksWhenDue ==
   [][ last'.act = "handle_layer" =>
       LET o == last'  pre == L[o.n]
-          createDue == (~pre.dir) \/ o.strat.k = "Recreate" \/ o.mig.k = "Recreate"
+          createDue == (~pre.dir) \/ o.strat.k \in {"Recreate", "Default"} \/ o.mig.k \in {"Recreate", "Default"}
           updateDue == o.strat.k = "Update"
       IN /\ Count(o.calls, "create") = IF createDue THEN 1 ELSE 0
          /\ Count(o.calls, "update") = IF updateDue THEN 1 ELSE 0
@@ -493,6 +503,9 @@ PersistedEqualsResult ==
            post = [dir |-> TRUE, files |-> pre.files \cup o.ures.shape.files,
                    env |-> o.ures.shape.env, execd |-> o.ures.shape.execd,
                    sbom |-> o.ures.shape.sbom, toml |-> TomlOk(o.ty, o.ures.md)]
+      \* the default update keeps metadata, env and files, and drops exec.d programs and SBOMs
+      /\ o.ures.k = "Default" =>
+           post = [pre EXCEPT !.execd = {}, !.sbom = NoSbom, !.toml = TomlOk(o.ty, o.calls[Len(o.calls)].md)]
       \* ... or, for keep, what was there before with only the types refreshed
       /\ o.strat.k = "Keep" =>
            /\ SameContent(pre, post)
@@ -502,6 +515,7 @@ PersistedEqualsResult ==
 \* C02: the returned layer data equals what is on disk
 ReturnedEqualsDisk ==
   [][ last'.ret.kind = "Data" =>
-      LET post == L'[last'.n] IN last'.ret.md = post.toml.md /\ last'.ret.env = post.env ]_vars
+      LET post == L'[last'.n] IN
+      last'.ret.md = post.toml.md /\ last'.ret.env = post.env /\ last'.ret.ty = post.toml.ty ]_vars
 
 =============================================================================
